@@ -702,7 +702,16 @@ impl<Tz: TimeZone> DateTime<Tz> {
     /// ```
     #[must_use]
     pub fn with_time(&self, time: NaiveTime) -> LocalResult<Self> {
-        self.timezone().from_local_datetime(&self.overflowing_naive_local().date().and_time(time))
+        // The local date may lie in the buffer space outside the range of `NaiveDate`, so the
+        // result has to be checked against the supported range like in `map_local`.
+        self.timezone()
+            .from_local_datetime(&self.overflowing_naive_local().date().and_time(time))
+            .and_then(|dt| {
+                match dt >= DateTime::<Utc>::MIN_UTC && dt <= DateTime::<Utc>::MAX_UTC {
+                    true => Some(dt),
+                    false => None,
+                }
+            })
     }
 
     /// The minimum possible `DateTime<Utc>`.
